@@ -8,7 +8,47 @@ from lib import vlib
 from lib.vlib import log
 
 
+MC_BY_PROPERTY = {"C20": "MC_AMDesign_unrec.cfg", "C01": "MC_AMDesign_hang.cfg"}
+
+
+def run_design_mc(pid, tier):
+    """The design model AMDesign.tla satisfies every observer clause over all interleavings (small scope)."""
+    cfgs = [MC_BY_PROPERTY.get(pid, "MC_AMDesign.cfg")]
+    if tier == "thorough":
+        cfgs = ["MC_AMDesign.cfg", "MC_AMDesign_unrec.cfg", "MC_AMDesign_hang.cfg", "MC_AMDesign_inh.cfg", "MC_AMDesign_thorough.cfg"]
+    out = []
+    for c in cfgs:
+        r = vlib.tlc(pid, "mc_" + c.replace(".cfg", ""), "MC_AMDesign", c, workers=8, timeout=3000 if tier == "thorough" else 400, heap="12g")
+        vlib.tlc_must_pass(r, c)
+        log("  %s: %d states generated, %d distinct, depth %d, %.1fs" % (c, r.generated, r.distinct, r.depth, r.wall))
+        out.append(r)
+    return out
+
+
 def run_e2e(pid, tier, v, n_quick=400, n_thorough=6000):
+    wd = os.path.join(vlib.OUT, pid)
+    thorough = tier == "thorough"
+    import threading
+    mcbox = {}
+
+    def _mc():
+        try:
+            mcbox["r"] = run_design_mc(pid, tier)
+        except Exception as e:   # re-raised in the main thread
+            mcbox["err"] = e
+    th = threading.Thread(target=_mc)
+    th.start()
+    try:
+        e2e = _run_scenarios(pid, tier, v, n_quick, n_thorough)
+    finally:
+        th.join()
+    if "err" in mcbox:
+        raise mcbox["err"]
+    e2e["mc"] = mcbox["r"]
+    return e2e
+
+
+def _run_scenarios(pid, tier, v, n_quick, n_thorough):
     wd = os.path.join(vlib.OUT, pid)
     thorough = tier == "thorough"
     binp = vlib.go_build_test(pid, "e2e")
@@ -53,12 +93,21 @@ def judge(pid, v, e2e, prefixes):
     """Clauses named <PID>_... belong to pid; the others are reported as drift."""
     wd = os.path.join(vlib.OUT, pid)
     seen = set()
+    known = {}
     drift = collections.Counter()
     for x in e2e["viols"]:
         for c in x["clauses"]:
             owner = c.split("_")[0]
             if owner not in prefixes:
-                drift[c] += 1
+                if not re.match(r"^C\d+_F\d+_", c):     # listed findings of other properties are not drift
+                    drift[c] += 1
+                continue
+            kf = re.match(r"^C\d+_(F\d+)_", c)
+            if kf and any(f["key"] == kf.group(1) for f in vlib.known_findings(pid)):
+                known[kf.group(1)] = known.get(kf.group(1), 0) + 1
+                if known[kf.group(1)] == 1:
+                    ev = json.loads(e2e["lines"][x["line"] - 1])
+                    v.known_finding(kf.group(1), "%s (scenario run %s, t=%sms, group %s)" % (c, x["run"], x["t"], ev.get("gk")))
                 continue
             key = (x["run"], c)
             if key in seen:
@@ -86,16 +135,20 @@ def coverage(e2e, nontrivial_rule, nontrivial_count):
             e.pop("data", None)
             sample.append(e)
     return {
-        "states": e2e["tlc"].distinct, "transitions": e2e["tlc"].generated,
+        "states": e2e["tlc"].distinct + sum(m.distinct for m in e2e.get("mc", [])),
+        "transitions": e2e["tlc"].generated + sum(m.generated for m in e2e.get("mc", [])),
+        "design_model_states": sum(m.distinct for m in e2e.get("mc", [])),
+        "trace_states": e2e["tlc"].distinct,
         "traces_validated_against_impl": e2e["runs"],
         "evaluations": e2e["runs"],
         "distinct_nontrivial": nontrivial_count,
         "rule": nontrivial_rule,
         "events": dict(e2e["stats"]),
         "samples": sample,
-        "bounds": "scenarios: 4 alerts in 2 groups, 1 route, 1 receiver with 1-2 webhook integrations (send_resolved on/off), 5 timer sets "
+        "bounds": "design MC (AMDesign.tla, all observer clauses as invariants): 2 alerts of one group, 1-2 integrations, 1 receiver failure window, <=2-3 posts, 1 silence, time 0..8-9, all interleavings; "
+                  "scenarios: 4 alerts in 2 groups, 1 route, 1 receiver with 1-2 webhook / e-mail integrations (send_resolved on/off), reloads that add or remove an integration, 5 timer sets "
                   "(group_wait 0-30s, group_interval 5s-5m, repeat_interval 20s-1h), 6-20 environment events (fire / fire with end / resolve, "
-                  "silence create with offsets / expire, config reload), 0-2 receiver failure windows (recoverable, unrecoverable, hang), horizon 3 repeat intervals",
+                  "silence create with offsets / expire, config reload), 0-4 receiver windows (recoverable, unrecoverable, hang, slow; paired on sibling integrations), flap patterns around a flush tick, notification-log GC every minute, horizon 3 repeat intervals",
     }
 
 
